@@ -49,7 +49,11 @@ Inductive input :=
 | CUnknown                         (* decodable, type string in neither switch *)
 (* environment *)
 | EFlush (t : N)                   (* operation goroutine t: executor writes + Flush()es inside Execute *)
-| ERet (t : N) (r : ret)           (* operation goroutine t: Execute returns *)
+| ERet (t : N) (r : ret) (again : bool)
+                                   (* operation goroutine t: Execute returns.  [again] is the scheduler's
+                                      choice in the select of startSubscription when the context is
+                                      already cancelled AND the update tick is due: true = the tick wins
+                                      and Execute is entered once more.  Ignored otherwise. *)
 | EInitTimeout                     (* the connection-init timeout elapses *)
 | ETick                            (* one heartbeat / keep-alive goroutine's interval elapses *)
 | EClientClose.                    (* the client closes the socket *)
@@ -238,7 +242,7 @@ Definition exec_flush (pr : proto) (st : state) (t : N) : state * list output :=
   end.
 
 (* Execute of goroutine t returns *)
-Definition exec_return (pr : proto) (st : state) (t : N) (r : ret) : state * list output :=
+Definition exec_return (pr : proto) (st : state) (t : N) (r : ret) (again : bool) : state * list output :=
   match find_op t (s_ops st) with
   | None => (st, [])
   | Some o =>
@@ -248,7 +252,7 @@ Definition exec_return (pr : proto) (st : state) (t : N) (r : ret) : state * lis
       (* executeSubscription, then the select of startSubscription: a cancelled context ends the
          goroutine, otherwise it calls Execute again after the update interval *)
       let outs := match r with ROk => [] | RData => [OMsg (data_msg pr) i] | RErr => [OMsg MError i] end in
-      (if o_cancelled o then set_ops st (remove_op t (s_ops st)) else st, emit st outs)
+      (if o_cancelled o && negb again then set_ops st (remove_op t (s_ops st)) else st, emit st outs)
     | KQuery =>
       (* handleNonSubscriptionOperation: error, or result + complete; then the deferred
          subCancellations.Cancel(id) -- by id, whoever holds it now *)
@@ -311,13 +315,13 @@ Definition handle_gws (st : state) (m : input) : state * list output :=
   end.
 
 Definition is_client_msg (m : input) : bool :=
-  match m with EFlush _ | ERet _ _ | EInitTimeout | ETick | EClientClose => false | _ => true end.
+  match m with EFlush _ | ERet _ _ _ | EInitTimeout | ETick | EClientClose => false | _ => true end.
 
 (* ---------------------------------------------------------------- the step function *)
 Definition step (pr : proto) (st : state) (m : input) : state * list output :=
   match m with
   | EFlush t => exec_flush pr st t
-  | ERet t r => exec_return pr st t r
+  | ERet t r again => exec_return pr st t r again
   | EInitTimeout =>
     match pr, s_timer st with
     | TWS, TRunning =>
